@@ -90,6 +90,12 @@ C["C04"] = ("Coq theorems over a model of a migrating cluster (per-node data, sl
             "Tie: client programs with scripted migrations, steps fired inside redirect chains, stale/fresh tables, failovers and background traffic through the real processor vs the model.",
             "Excludes a new migration of the request's own slot between two of its hops; failover assumes the replica has the data; errors allowed only until the refresh triggered by the "
             "unreachable node completes.", "DESIGN.md §4 C04")
+C["C07"] = ("Coq theorems over a model of the backend-connection table (lookup, dial, a lost connection removing itself), the routing table and its triggered refresh, for every reachable "
+            "state of any history of requests, connection resets, backends stopping/returning and layout changes: an error reply has a cause that holds at that moment (backend unreachable, "
+            "or its lost connection not yet removed); finished connections leave the table; once the nodes involved are reachable the request is served by the owner with the single "
+            "server's reply, over a connection with a never-used id and one more accept when the old one is gone; the first redirection's refresh makes the table equal the layout as soon "
+            "as a configured host is reachable, and an up-to-date table never redirects. Tie: fault histories through the real processor against the simulator vs the extracted model.",
+            "Faults between requests; the removal of a lost connection and the choice of the refresh host are scheduling/random facts (sampled).", "DESIGN.md §4 C07")
 checks = []
 for pid in sorted(C):
     text, note, ref = C[pid]
